@@ -385,18 +385,6 @@ def _gen_k(sampler, rows, bs, expect: int) -> int:
     return -1
 
 
-def _builtin_cursor(sampler, fallback: int) -> int:
-    """batches already drawn by a built-in Halton sampler, recovered from its sequence cursor"""
-    try:
-        start = int(np.random.default_rng(sampler.random_state).integers(20, 2**16))
-        idx = int(sampler._sequence_index)  # noqa: SLF001
-        if sampler.random_state is not None and idx >= start and (idx - start) % sampler.batch_size == 0:
-            return (idx - start) // sampler.batch_size
-    except Exception:  # noqa: BLE001
-        pass
-    return fallback
-
-
 def _sample_wrapper(self, search_space, existing_points, existing_losses):
     rec = REC
     if rec is None or not rec.enabled or rec.cal is None:
@@ -404,9 +392,6 @@ def _sample_wrapper(self, search_space, existing_points, existing_losses):
     cal = rec.cal
     pos = _position(rec, self)
     k = getattr(self, "_vk", 0)
-    if not isinstance(self, _Scripted):
-        self._vk = k + 1
-        k = _builtin_cursor(self, k)
     pre = {"bi": int(cal.current_batch_index), "ns": int(cal.n_sampled_params),
            "lens": [len(cal.params_samp), len(cal.losses_samp), len(cal.series_samp), len(cal.batch_num_samp), len(cal.method_samp)]}
     if rec.fault_now("sampler"):
@@ -420,6 +405,8 @@ def _sample_wrapper(self, search_space, existing_points, existing_losses):
         if not isinstance(self, _Scripted):
             rec.log({"e": "fault", "at": "sampler", "native": True})   # a built-in sampler raised by itself: a fault like any other
         raise
+    if not isinstance(self, _Scripted):
+        self._vk = k + 1          # (counted once the batch was really drawn; a seed reset puts the count back to zero)
     # "ctor": the sampler still runs on the seed it was constructed with; how the cascade derives the new seed is not observed
     root = "ctor" if getattr(self, "_vctor", None) is not None and self.random_state == self._vctor else "cal"
     gk = _gen_k(self, out, len(out), k)
@@ -435,18 +422,32 @@ def _ckpt_wrapper(self, file_name):
         rec.log({"e": "ckpt", "bi": int(self.current_batch_index), "ns": int(self.n_sampled_params)})
 
 
+def _seed_wrapper(self, random_state):
+    """a seed reset also restarts the count of batches drawn from the object (observed at the public setter's base implementation)"""
+    _ORIG["seed"](self, random_state)
+    if isinstance(self, BaseSampler) and not isinstance(self, _Scripted):
+        self._vk = 0
+
+
 def install():
+    from black_it.utils.seedable import BaseSeedable
+
     if "sample" not in _ORIG:
         _ORIG["sample"] = BaseSampler.sample
         _ORIG["ckpt"] = Calibrator.create_checkpoint
+        _ORIG["seed"] = BaseSeedable._set_random_state  # noqa: SLF001
     BaseSampler.sample = _sample_wrapper
     Calibrator.create_checkpoint = _ckpt_wrapper
+    BaseSeedable._set_random_state = _seed_wrapper  # noqa: SLF001
 
 
 def uninstall():
     if "sample" in _ORIG:
+        from black_it.utils.seedable import BaseSeedable
+
         BaseSampler.sample = _ORIG["sample"]
         Calibrator.create_checkpoint = _ORIG["ckpt"]
+        BaseSeedable._set_random_state = _ORIG["seed"]  # noqa: SLF001
 
 
 # ------------------------------------------------------------------------------------------------
